@@ -5,7 +5,8 @@ from . import build, run, audit
 TRUSTED_BASE = [
     "Coq 8.16.1 kernel (coqc, full .vo builds via coq_makefile; vm_compute used, native_compute not used)",
     "Sem/*.v: hand-written semantics of Rust integers (64-bit usize, both overflow profiles), slices, panics, io::Error kinds, loops, collaborators as parameters",
-    "Model/*.v tied to /repo by correspondence: the extracted model (ExtrOcamlBasic only, no Extract Constant) and the compiled crates run on the same cases in dev and release profiles",
+    "tie T1: rs2v ast (syn) + vlib/translate.py (syntax-directed translator with a library table, struct tables and three monad/eta peephole rules) regenerate Gen/*Gen.v from /repo on every run; GenEq/*.v re-prove translated = model per function",
+    "tie T2: the extracted model (ExtrOcamlBasic only, no Extract Constant) and the compiled crates run on the same cases in dev and release profiles",
     "harness/ (Rust drivers), mlrun/drv.ml (OCaml driver), vlib/ (generators, comparator, checkers); rustc 1.95; catch_unwind as panic observer",
 ]
 
@@ -33,10 +34,12 @@ class Prop:
     pre_make = None      # optional hook run before the Coq build (regenerates Gen/ files from /repo)
     level_text = ""
     level_note = ("Trusted: Coq 8.16.1 kernel; Sem/ (hand-written semantics of Rust integers in both overflow profiles, slices, panics, "
-                  "io::Error kinds, collaborators as parameters); the hand-written model (translator style) is tied to the code by "
-                  "correspondence, i.e. differential execution on generated cases, not by translation; extraction via ExtrOcamlBasic; "
-                  "harness, generators and checkers. No axioms (Print Assumptions: closed under the global context).")
-    technique = "Coq proof over an executable model + model/implementation correspondence (differential execution, dev+release)"
+                  "io::Error kinds, collaborators as parameters); the model is tied to the code (T1) by re-translation of the modelled "
+                  "functions from /repo on every run (rs2v ast + vlib/translate.py -> Gen/*.v) with per-function equalities GenEq/*.v "
+                  "re-proved, where the function is in the translated subset, and (T2) by correspondence, i.e. differential execution on "
+                  "generated cases in both cargo profiles; extraction via ExtrOcamlBasic; translator, harness, generators and checkers. "
+                  "No axioms (Print Assumptions: closed under the global context).")
+    technique = "Coq proof over an executable model; model regenerated from the source by a translator and re-proved equal (T1) + model/implementation correspondence (differential execution, dev+release) (T2)"
 
     def gen(self, tier, rng):            # -> list[Case]
         raise NotImplementedError
@@ -138,8 +141,13 @@ def shrink_case(P, exes, drv, case, prof, mode, model_ok=True):
     """greedy, batched: evaluate all shrink candidates of the current case at once, move to the first
     that still fails the checker (mode 'fail') / still differs from the model (mode 'mism')"""
     cur = case
+    if len(case.line) > 60000:
+        return cur                     # a huge directed case is reported as it is
+    t_end = time.time() + 45          # shrinking is a convenience: bounded, so that huge directed cases cannot stall a check
     for _ in range(80):
-        cands = list(P.shrink(cur))[:400]
+        if time.time() > t_end:
+            break
+        cands = list(P.shrink(cur))[:400 if len(cur.line) < 20000 else 24]
         if not cands:
             break
         res = run_cases(P, exes, drv, cands, model_ok, profs=(prof,))
@@ -188,6 +196,16 @@ def main(P, tier, replay=None):
             except build.BuildError as e:
                 ctx["open_obligations"].append({"kind": "translation", "what": e.what, "log": e.log[-3000:]})
         ctx["tie1"] = tie1
+        # search support: literals the current source adds to the pinned one become boundary values of the generators
+        try:
+            from . import dictionary, fam_api, fam_rf, fam_adapters
+            if not P.gen_scope:
+                build.gen_models()
+            nv = dictionary.novel()
+            fam_api.NOVEL[:] = nv; fam_rf.NOVEL[:] = nv; fam_adapters.NOVEL[:] = nv
+            ctx["novel_literals"] = nv
+        except build.BuildError:
+            ctx["novel_literals"] = []
         try:
             build.coq_make(targets=["Run/Main.vo"])
             drv = build.ml_driver()
@@ -293,11 +311,12 @@ def main(P, tier, replay=None):
             "obligation_files": nlem["files"],
             "checker_cmd": "make -C /verif/coq -j16 " + " ".join(P.coq_targets) + "  (coqc 8.16.1, full .vo build)",
             "trusted_base": TRUSTED_BASE + P.extra_assumptions,
-            "print_assumptions": assumptions,
+            "print_assumptions": aud.get("print_assumptions", {}),
             "audit": aud,
             "tie": "T2 correspondence (model vs compiled crate, both cargo profiles)" + ("; T1: %d function(s) re-translated from /repo by rs2v+translate.py and re-proved equal to the model (GenEq/*.v), %d broken" % (len(ctx.get("tie1", {})), sum(1 for v in ctx.get("tie1", {}).values() if v is not None)) if P.gen_scope else ""),
             "tie_T1": {n: ("equal" if v is None else "BROKEN") for n, v in ctx.get("tie1", {}).items()},
             "tie_T1_untranslated": ctx.get("gen_report", {}),
+            "novel_source_literals_used_as_boundary_values": ctx.get("novel_literals", []),
             "evaluations": len(cases) * 2,
             "distinct_nontrivial": len(distinct),
             "rule": P.nontrivial_rule,
